@@ -441,6 +441,7 @@ func c02Sequences(c *run.Ctx) {
 		`{ node { __typename id } nodes { __typename id ... on Item { size } } }`,
 		`{ thing { __typename ... on Item { id } } things { ... on Other { note } ... on Item { kind } } }`,
 		`{ strangers { __typename id } stranger { id } }`,
+		`{ mixedThings { __typename ... on Item { id } ... on Other { note } } }`,
 		`{ self { self { name count } } }`,
 		`mutation { diff(a: 9, b: 4) renamed }`,
 		`mutation { bump(by: 0) }`,
